@@ -1,6 +1,7 @@
 (* Properties_C13.v — ONLY the property theorems for C13 (cmap lookup, direct and cached).
    Model: Model/CmapModel.v, hand-written after src/TtfUtil.cpp (cmap functions) and src/CmapCache.cpp. *)
-From GR Require Import Base.Bytes Base.MemFacts Model.CmapModel Proofs.CmapCache Proofs.CmapSafe.
+From GR Require Import Base.Bytes Base.Mem Base.MemFacts Model.CmapModel Proofs.CmapCache Proofs.CmapSafe Proofs.Cmap12Agree Proofs.Cmap4Agree Proofs.CmapWhole.
+From Coq Require Import FMapPositive Lia.
 Local Open Scope N_scope.
 
 (* The cache fill loop terminates within its fuel for ANY iteration / lookup functions (hence for any table bytes):
@@ -32,6 +33,46 @@ Theorem C13_cached_eq_direct_partial :
 Proof. exact cache_subtable_agrees. Qed.
 Print Assumptions C13_cached_eq_direct_partial.
 
+(* FULL: the cached and the direct lookup agree on EVERY code point.  For every table (arbitrary bytes) whose BMP subtable
+   (format 4) and, when present, supplementary subtable (format 12) CheckCmapSubtable4/12 accept and whose segments / groups are
+   well formed in the OpenType sense (wf4: start <= end, sorted, disjoint, last end 0xFFFF; wf12: start <= end <= 0x10FFFF,
+   sorted, disjoint), building the cache (gr_face_cacheCmap) succeeds — no trap, terminates — and the cached lookup returns what
+   the direct lookup returns: format 4 below U+10000, format 12 above, 0 above U+FFFF on a BMP-only face. *)
+Theorem C13_cached_eq_direct : forall (l : bytes) ob smp, let t := mem_of_list l in tlen t < S64 ->
+  check4 t (Some ob) = Some true -> wf4 t ob -> smp_ok t smp ->
+  exists cc, cached_build t (Some ob) smp = Some (Some cc) /\
+             forall c, c <= 0x10FFFF -> direct t (Some ob) smp c = Some (cached cc (match smp with Some _ => false | None => true end) c).
+Proof. intros l ob smp. exact (cached_eq_direct (mem_of_list l) ob smp (mem_of_list_wf l)). Qed.
+Print Assumptions C13_cached_eq_direct.
+
+(* format 4 alone *)
+Theorem C13_cached4_eq_direct : forall (l : bytes) o, let t := mem_of_list l in tlen t < S64 -> check4 t (Some o) = Some true -> wf4 t o ->
+  exists m, cache_subtable (next4 t o) (lookup4 t o) 0xFFFF (PositiveMap.empty N) = Some (Some m) /\
+            forall d, d <= 0xFFFF -> lookup4 t o d 0 = Some (cget m d).
+Proof. intros l o. exact (cached4_eq_direct_checked (mem_of_list l) o (mem_of_list_wf l)). Qed.
+Print Assumptions C13_cached4_eq_direct.
+
+(* FULL for format 12: on every subtable that CheckCmapSubtable12 accepts and whose groups are well formed in the OpenType sense
+   (start <= end <= 0x10FFFF, sorted, disjoint: wf12), filling the cache through NextCodepoint + keyed Lookup does not trap,
+   terminates, and the cache holds for EVERY code point up to 0x10FFFF exactly what the direct (keyless) lookup returns. *)
+Theorem C13_cached12_eq_direct : forall (l : bytes) o, let t := mem_of_list l in tlen t < S64 -> check12 t (Some o) = Some true -> wf12 t o ->
+  exists m, cache_subtable (next12 t o) (lookup12 t o) 0x10FFFF (PositiveMap.empty N) = Some (Some m) /\
+            forall d, d <= 0x10FFFF -> lookup12 t o d 0 = Some (cget m d).
+Proof. intros l o. exact (cached12_eq_direct_checked (mem_of_list l) o (mem_of_list_wf l)). Qed.
+Print Assumptions C13_cached12_eq_direct.
+
+(* non-vacuity: a two-group format-12 subtable (U+10000..U+10002 -> 5.., U+1F600..U+1F601 -> 9..) is accepted and well formed *)
+Definition ex_cmap12 : bytes :=
+  [0;12; 0;0; 0;0;0;40; 0;0;0;0; 0;0;0;2;  0;1;0;0; 0;1;0;2; 0;0;0;5;  0;1;0xF6;0; 0;1;0xF6;1; 0;0;0;9].
+Example C13_example12 : check12 (mem_of_list ex_cmap12) (Some 0) = Some true /\ wf12 (mem_of_list ex_cmap12) 0 /\
+  lookup12 (mem_of_list ex_cmap12) 0 0x1F601 0 = Some 10.
+Proof.
+  split; [vm_compute; reflexivity|]. split; [|vm_compute; reflexivity].
+  exists 2. split; [vm_compute; reflexivity|]. split; [lia|]. split.
+  - intros i Hi. assert (H : i = 0 \/ i = 1) by lia. destruct H as [-> | ->]; vm_compute; split; discriminate.
+  - intros i j Hij Hj. assert (H : i = 0 /\ j = 1) by lia. destruct H as [-> ->]. vm_compute. reflexivity.
+Qed.
+
 (* For ARBITRARY table bytes: once CheckCmapSubtable12 / CheckCmapSubtable4 accepted a subtable, the lookups never read
    outside the table, for every code point and every (in-range) key. *)
 Theorem C13_lookup12_arbitrary_bytes_safe : forall (l : bytes) o, let t := mem_of_list l in tlen t < S64 -> check12 t (Some o) = Some true ->
@@ -53,3 +94,12 @@ Example C13_example :
   direct ex_cmap (Some 12) None 0x42 = Some 0x45 /\ direct ex_cmap (Some 12) None 0x44 = Some 0 /\
   (match cached_build ex_cmap (Some 12) None with Some (Some m) => cached m true 0x42 = 0x45 /\ cached m true 0xFFFF = 0 | _ => False end).
 Proof. vm_compute. repeat split; reflexivity. Qed.
+
+(* non-vacuity of wf4: the two-segment subtable of C13_example is well formed *)
+Example C13_example_wf4 : wf4 ex_cmap 12 /\ smp_ok ex_cmap None.
+Proof.
+  split; [|exact I]. exists 4. split; [vm_compute; reflexivity|]. split; [|split].
+  - intros i Hi. assert (H : i = 0 \/ i = 1) by (change (4 / 2) with 2 in Hi; lia). destruct H as [-> | ->]; vm_compute; discriminate.
+  - intros i j Hij Hj. assert (H : i = 0 /\ j = 1) by (change (4 / 2) with 2 in Hj; lia). destruct H as [-> ->]. vm_compute. reflexivity.
+  - vm_compute. reflexivity.
+Qed.
